@@ -8,39 +8,56 @@ buffer content; the only possible error is `InvalidData` (exactly when the quant
 -/
 namespace CV.Range
 
-/-- invariant documented on `RangeDecoder::point`, plus register bounds -/
-def DInv (c : Cfg) (d : Decoder) : Prop :=
+/-- register bounds of a decoder: values fit their types, `range ≥ 2^(S-W)` (enforced by
+    `RangeCoderState`), the buffer holds `Word`s.  This is all `decode_symbol` needs. -/
+def DReg (c : Cfg) (d : Decoder) : Prop :=
   d.lower < 2^c.S ∧ 2^(c.S - c.W) ≤ d.range ∧ d.range < 2^c.S ∧ d.point < 2^c.S ∧
-  wsub c.S d.point d.lower < d.range ∧ WordsOK c d.data
+  WordsOK c d.data
+
+/-- `DReg` plus the invariant documented on `RangeDecoder::point` -/
+def DInv (c : Cfg) (d : Decoder) : Prop :=
+  DReg c d ∧ wsub c.S d.point d.lower < d.range
 
 theorem wsub_eq (n a b : Nat) : wsub n a b = (a + 2^n - b % 2^n) % 2^n := rfl
 
 theorem wsub_lt (n a b : Nat) : wsub n a b < 2^n := Nat.mod_lt _ (two_pow_pos' n)
 
+theorem mod_two {x T : Nat} (h : x < 2 * T) : x % T = if x < T then x else x - T := by
+  split
+  · next h1 => exact Nat.mod_eq_of_lt h1
+  · next h1 =>
+    have h2 : x ≥ T := Nat.le_of_not_lt h1
+    have h3 : x - T < T := by omega
+    rw [Nat.mod_eq_sub_mod h2]; exact Nat.mod_eq_of_lt h3
+
 /-- `b + (a ⊖ b) ≡ a` -/
 theorem wsub_add {n a b : Nat} (ha : a < 2^n) (hb : b < 2^n) : (b + wsub n a b) % 2^n = a := by
   rw [wsub_eq, Nat.mod_eq_of_lt hb]
-  by_cases h : b ≤ a
-  · have h1 : a + 2^n - b = (a - b) + 2^n := by omega
-    rw [h1, Nat.add_mod_right, Nat.mod_eq_of_lt (by omega), Nat.mod_eq_of_lt (by omega)]
-    omega
-  · rw [Nat.mod_eq_of_lt (show a + 2^n - b < 2^n by omega)]
-    have h1 : b + (a + 2^n - b) = a + 2^n := by omega
-    rw [h1, Nat.add_mod_right, Nat.mod_eq_of_lt ha]
+  generalize 2^n = T at *
+  have h1 : a + T - b < 2 * T := by omega
+  rw [mod_two h1]
+  split
+  · next h2 =>
+    have h3 : b + (a + T - b) < 2 * T := by omega
+    rw [mod_two h3]; split <;> omega
+  · next h2 =>
+    have h3 : b + (a + T - b - T) < 2 * T := by omega
+    rw [mod_two h3]; split <;> omega
 
 /-- `a ⊖ b` is the only `d < 2^n` with `b + d ≡ a` -/
 theorem wsub_unique {n a b d : Nat} (hb : b < 2^n) (hd : d < 2^n) (h : (b + d) % 2^n = a) :
     wsub n a b = d := by
   rw [wsub_eq, Nat.mod_eq_of_lt hb, ← h]
-  by_cases hlt : b + d < 2^n
-  · rw [Nat.mod_eq_of_lt hlt]
-    have h1 : b + d + 2^n - b = d + 2^n := by omega
-    rw [h1, Nat.add_mod_right, Nat.mod_eq_of_lt hd]
-  · have h0 : (b + d) % 2^n = b + d - 2^n := by
-      rw [Nat.mod_eq_sub_mod (by omega)]; exact Nat.mod_eq_of_lt (by omega)
-    rw [h0]
-    have h1 : b + d - 2^n + 2^n - b = d := by omega
-    rw [h1, Nat.mod_eq_of_lt hd]
+  generalize 2^n = T at *
+  have h1 : b + d < 2 * T := by omega
+  rw [mod_two h1]
+  split
+  · next h2 =>
+    have h3 : b + d + T - b < 2 * T := by omega
+    rw [mod_two h3]; split <;> omega
+  · next h2 =>
+    have h3 : b + d - T + T - b < 2 * T := by omega
+    rw [mod_two h3]; split <;> omega
 
 /-- pure description of a successful `decode_symbol` -/
 def decPure {Sym : Type} (c : Cfg) (m : Model Sym) (d : Decoder) : Sym × Decoder :=
@@ -67,15 +84,17 @@ theorem quantile_narrow {c : Cfg} (hc : RValid c) {q : Nat} (hq : q < 2^c.P) :
   have hB : 2^c.P ≤ 2^c.B := Nat.pow_le_pow_right (by omega) hc.1.2.1
   have hW : 2^c.B ≤ 2^c.W := Nat.pow_le_pow_right (by omega) hc.1.2.2.1
   unfold narrow
-  rw [Nat.mod_eq_of_lt (by omega), Nat.mod_eq_of_lt (by omega)]
+  have h1 : q < 2^c.W := by omega
+  have h2 : q < 2^c.B := by omega
+  rw [Nat.mod_eq_of_lt h1, Nat.mod_eq_of_lt h2]
 
 /-- `decode_symbol` never faults: it raises `InvalidData` iff the quantile is `≥ 2^P`, and
     otherwise computes `decPure`. -/
 theorem decode_eq_pure {Sym : Type} {c : Cfg} (hc : RValid c) {m : Model Sym}
-    (hm : m.WellFormed c.P) {d : Decoder} (hI : DInv c d) :
+    (hm : m.WellFormed c.P) {d : Decoder} (hI : DReg c d) :
     decode c m d =
       if quantileOf c d ≥ 2^c.P then .error .invalidData else .ok (decPure c m d) := by
-  obtain ⟨hl, hr, hr2, hpt, hD, _⟩ := hI
+  obtain ⟨hl, hr, hr2, hpt, _⟩ := hI
   have hP := two_pow_pos' c.P
   have hscale : 0 < d.range / 2^c.P := by
     have h1 : 2^(c.S - c.W - c.P) ≤ d.range / 2^c.P := by
@@ -95,9 +114,11 @@ theorem decode_eq_pure {Sym : Type} {c : Cfg} (hc : RValid c) {m : Model Sym}
     obtain ⟨henc, hle, hlt⟩ := hm.2 _ hq'
     obtain ⟨hp, hcp, _, _⟩ := hm.1 _ _ _ henc
     -- name the decoded triple
-    generalize hdq : m.dec (wsub c.S d.point d.lower / (d.range / 2^c.P)) = t at *
+    simp only [decPure]
+    generalize m.dec (wsub c.S d.point d.lower / (d.range / 2^c.P)) = t at *
     obtain ⟨s, cum, p⟩ := t
-    simp only at hle hlt hp hcp
+    simp only at hle hlt hp hcp ⊢
+    unfold decodeStep
     have hfull : d.range / 2^c.P * (cum + p) ≤ d.range :=
       calc d.range / 2^c.P * (cum + p) ≤ d.range / 2^c.P * 2^c.P := Nat.mul_le_mul_left _ hcp
         _ ≤ d.range := Nat.div_mul_le_self _ _
@@ -112,8 +133,7 @@ theorem decode_eq_pure {Sym : Type} {c : Cfg} (hc : RValid c) {m : Model Sym}
     rw [shl_ok (show c.S - c.W < c.S by omega)]
     simp only [shl_eq_mul, Nat.one_mul]
     rw [Nat.mod_eq_of_lt (Nat.pow_lt_pow_right (by omega) (show c.S - c.W < c.S by omega))]
-    unfold decPure
-    simp only [hdq, wadd_eq]
+    simp only [wadd_eq]
     by_cases hlt2 : d.range / 2^c.P * p < 2^(c.S - c.W)
     · simp only [hlt2, if_true]
       rw [shl_ok hWS, shl_ok hWS, shl_ok hWS]
@@ -123,7 +143,7 @@ theorem decode_eq_pure {Sym : Type} {c : Cfg} (hc : RValid c) {m : Model Sym}
       rw [Nat.mod_eq_of_lt hr2']
       have hne : d.range / 2^c.P * p * 2^c.W ≠ 0 :=
         Nat.ne_of_gt (Nat.mul_pos hp1 (two_pow_pos' _))
-      simp only [hne, if_false, readWord]
+      simp only [hne, if_false]
       cases d.data[d.pos]? <;> rfl
     · simp only [hlt2, if_false]
 
@@ -142,19 +162,20 @@ theorem shifted_add_lt {c : Cfg} (hc : RValid c) (x w : Nat) (hw : w < 2^c.W) :
   rw [Nat.add_mul] at h2
   omega
 
-/-- **decoder invariant is preserved** on arbitrary data -/
+/-- **decoder invariant is established / preserved** on arbitrary data (no assumption that
+    the data came from an encoder, nor that `point ⊖ lower < range` held before) -/
 theorem decPure_inv {Sym : Type} {c : Cfg} (hc : RValid c) {m : Model Sym}
-    (hm : m.WellFormed c.P) {d : Decoder} (hI : DInv c d) (hq : quantileOf c d < 2^c.P) :
+    (hm : m.WellFormed c.P) {d : Decoder} (hI : DReg c d) (hq : quantileOf c d < 2^c.P) :
     DInv c (decPure c m d).2 := by
-  obtain ⟨hl, hr, hr2, hpt, hD, hdata⟩ := hI
+  obtain ⟨hl, hr, hr2, hpt, hdata⟩ := hI
   have hP := two_pow_pos' c.P
   have hT := two_pow_pos' c.S
   have hb := two_pow_pos' c.W
   obtain ⟨henc, hle, hlt⟩ := hm.2 _ hq
   obtain ⟨hp, hcp, _, _⟩ := hm.1 _ _ _ henc
   unfold quantileOf at hq hle hlt henc hp hcp
-  unfold decPure
-  generalize hdq : m.dec (wsub c.S d.point d.lower / (d.range / 2^c.P)) = t at *
+  simp only [decPure]
+  generalize m.dec (wsub c.S d.point d.lower / (d.range / 2^c.P)) = t at *
   obtain ⟨s, cum, p⟩ := t
   simp only at hle hlt hp hcp ⊢
   generalize hsc : d.range / 2^c.P = scale at *
@@ -213,10 +234,12 @@ theorem decPure_inv {Sym : Type} {c : Cfg} (hc : RValid c) {m : Model Sym}
       rw [hD1] at hsum
       have hdm := Nat.div_add_mod ((d.lower + scale * cum) % 2^c.S + (D - scale * cum)) (2^c.S)
       rw [hsum] at hdm
+      generalize ((d.lower + scale * cum) % 2^c.S + (D - scale * cum)) / 2^c.S = k at hdm
+      have h2 : (2^c.S * k + d.point) * 2^c.W
+          = ((d.lower + scale * cum) % 2^c.S + (D - scale * cum)) * 2^c.W := by rw [hdm]
+      rw [Nat.add_mul, Nat.add_mul, Nat.mul_assoc] at h2
       have : (d.lower + scale * cum) % 2^c.S * 2^c.W + ((D - scale * cum) * 2^c.W + w)
-          = 2^c.S * ((((d.lower + scale * cum) % 2^c.S + (D - scale * cum)) / 2^c.S) * 2^c.W)
-            + (d.point * 2^c.W + w) := by
-        rw [← Nat.add_assoc, ← Nat.add_mul, ← hdm]; ring
+          = 2^c.S * (k * 2^c.W) + (d.point * 2^c.W + w) := by omega
       rw [this, Nat.mul_add_mod, Nat.add_mod, Nat.mod_eq_of_lt (Nat.lt_of_lt_of_le hw (by
         rw [hc.pow_S]; exact Nat.le_mul_of_pos_left _ (two_pow_pos' _)))]
       exact Nat.mod_eq_of_lt (shifted_add_lt hc _ _ hw)
@@ -225,7 +248,8 @@ theorem decPure_inv {Sym : Type} {c : Cfg} (hc : RValid c) {m : Model Sym}
       simp only
       have k0 := key 0 hb
       simp only [Nat.add_zero] at k0
-      refine ⟨hl2, hr2lo, hr2', Nat.mod_lt _ hT, ?_, hdata⟩
+      refine ⟨⟨hl2, hr2lo, hr2', Nat.mod_lt _ hT, hdata⟩, ?_⟩
+      dsimp only
       rw [k0]
       have h1 : D - scale * cum + 1 ≤ scale * p := by omega
       have h2 := Nat.mul_le_mul_right (2^c.W) h1
@@ -235,14 +259,32 @@ theorem decPure_inv {Sym : Type} {c : Cfg} (hc : RValid c) {m : Model Sym}
       simp only
       have hwlt : w < 2^c.W := hdata w (List.mem_of_getElem? hw)
       rw [shifted_or hc _ _ hwlt]
-      refine ⟨hl2, hr2lo, hr2', shifted_add_lt hc _ _ hwlt, ?_, hdata⟩
+      refine ⟨⟨hl2, hr2lo, hr2', shifted_add_lt hc _ _ hwlt, hdata⟩, ?_⟩
+      dsimp only
       rw [key w hwlt]
       have h1 : D - scale * cum + 1 ≤ scale * p := by omega
       have h2 := Nat.mul_le_mul_right (2^c.W) h1
       rw [Nat.add_mul] at h2
       omega
   · simp only [hlt2, if_false]
-    refine ⟨hl1, Nat.le_of_not_lt hlt2, by omega, hpt, ?_, hdata⟩
+    have hr1 : scale * p < 2^c.S := by omega
+    refine ⟨⟨hl1, Nat.le_of_not_lt hlt2, hr1, hpt, hdata⟩, ?_⟩
+    dsimp only
     rw [hD1]; omega
+
+/-- the decoded symbol belongs to the model's support -/
+theorem decPure_support {Sym : Type} {c : Cfg} {m : Model Sym}
+    (hm : m.WellFormed c.P) {d : Decoder} (hq : quantileOf c d < 2^c.P) :
+    ∃ cum p, m.enc (decPure c m d).1 = some (cum, p) ∧ 0 < p := by
+  obtain ⟨henc, _, _⟩ := hm.2 _ hq
+  obtain ⟨hp, _, _, _⟩ := hm.1 _ _ _ henc
+  refine ⟨(m.dec (quantileOf c d)).2.1, (m.dec (quantileOf c d)).2.2, ?_, hp⟩
+  have : (decPure c m d).1 = (m.dec (quantileOf c d)).1 := by
+    unfold decPure quantileOf
+    simp only
+    split
+    · split <;> rfl
+    · rfl
+  rw [this]; exact henc
 
 end CV.Range
